@@ -197,6 +197,24 @@ def walk(n):
         stack.extend(ch)
 
 
+def all_patterns(n):
+    """Every pattern under n, wherever it binds: `if let` / `while let` conditions, `let` statements (with or without
+    `else`), match arms and closure parameters."""
+    for x in walk(n):
+        if x.get("k") == "LetExpr" and isinstance(x.get("pat"), dict):
+            yield x["pat"]
+        for s in x.get("stmts", ()) or ():
+            if s.get("k") == "Let" and isinstance(s.get("pat"), dict):
+                yield s["pat"]
+        for a in x.get("arms", ()) or ():
+            if isinstance(a.get("pat"), dict):
+                yield a["pat"]
+        if x.get("k") == "Closure":
+            for p in x.get("params", ()) or ():
+                if isinstance(p, dict):
+                    yield p
+
+
 def callee(n):
     """Resolved callee def path of a Call / MethodCall / overloaded operator node, else None."""
     k = n.get("k")
